@@ -573,6 +573,24 @@ func (vc *FnVC) setEdge(from, to *ssa.BasicBlock, st *State, cond string) {
 // checkLoopExit: `exits` clauses of every loop that the edge from -> to leaves by break.
 func (vc *FnVC) checkLoopExit(from, to *ssa.BasicBlock, st *State, pc string) {
 	for h, li := range vc.loops {
+		if li.spec != nil && len(li.spec.Afters) > 0 && from == h && !li.blocks[to] {
+			est := st.clone()
+			est.pc = pc
+			env := vc.envAt(est, li)
+			vc.curInstr = nil
+			for i, ac := range li.spec.Afters {
+				t, err := vc.evalBool(env, ac.E)
+				if err != nil {
+					vc.contractError("loop %d after %q: %v", li.ordinal, ac.Text, err)
+					continue
+				}
+				lbl := ac.Name
+				if lbl == "" {
+					lbl = fmt.Sprintf("after%d", i+1)
+				}
+				vc.oblige(est, "loop-after", fmt.Sprintf("loop%d/%s", li.ordinal, lbl), t, "holds when the loop has terminated: "+ac.Text)
+			}
+		}
 		if li.spec == nil || len(li.spec.Exits) == 0 || !li.blocks[from] || li.blocks[to] || from == h {
 			continue
 		}
@@ -1010,6 +1028,14 @@ func (vc *FnVC) mapKeyTerm(st *State, mt *types.Map, k *Val) string {
 	if k.S != "" {
 		return k.S
 	}
+	if n, _, ok := structKeySort(mt.Key()); ok && k.Fields != nil {
+		vc.mapKeys(mt)
+		var args []string
+		for _, f := range k.Order {
+			args = append(args, k.Fields[f].S)
+		}
+		return "(mk" + n + " " + strings.Join(args, " ") + ")"
+	}
 	vc.note("map with struct key: key abstracted")
 	return "0"
 }
@@ -1178,7 +1204,17 @@ func (vc *FnVC) next(st *State, n *ssa.Next) *Val {
 		smtImp(smtNot(okc), smtOr(sx("=", it.S, "0"), fmt.Sprintf("(forall ((q %s)) (! (=> (select %s q) (select %s q)) :pattern ((select %s q))))", ks, d, visited, visited)))))
 	vc.set(st, key, smtIte(okc, sx("store", visited, k, "true"), visited))
 	kv := &Val{T: mt.Key(), S: k}
-	vc.assume(st, vc.typeFacts(st, mt.Key(), k))
+	if n, _, ok := structKeySort(mt.Key()); ok {
+		u := mt.Key().Underlying().(*types.Struct)
+		kv = &Val{T: mt.Key(), Fields: map[string]*Val{}}
+		for i := 0; i < u.NumFields(); i++ {
+			f := u.Field(i)
+			kv.Fields[f.Name()] = &Val{T: f.Type(), S: sx(n+"."+f.Name(), k)}
+			kv.Order = append(kv.Order, f.Name())
+		}
+	} else {
+		vc.assume(st, vc.typeFacts(st, mt.Key(), k))
+	}
 	raw := sx("select", sx("select", vc.get(st, val.Name), it.S), k)
 	var vv *Val
 	if isStruct(mt.Elem()) {
